@@ -372,7 +372,7 @@ def decode(fp, fmt, hs):
         r = QLReader()
         import contextlib, io
         with contextlib.redirect_stdout(io.StringIO()):
-            r.load(fp, "/repo/src/pyrtma/core_defs.py", skip_unknown=False)
+            r.load(fp, os.environ.get("VF_REPO", "/repo") + "/src/pyrtma/core_defs.py", skip_unknown=False)
         if r.file_header.num_messages != len(r.messages):
             raise ValueError("header count mismatch")
         return [bytes(m.header) + bytes(m.data) for m in r.messages]
